@@ -153,7 +153,10 @@ def C16_invalidation_complete_full : Prop :=
   ∀ f ∈ setterTable, (∀ d : Datum, invalidationOK f d = true) ∧ setUpForcedOK f = true
 
 /-- exactly which (setter, derived datum) pairs lack an invalidation, and which setter clears caches that only
-    `set_up` re-allocates without forcing a `set_up` -/
+    `set_up` re-allocates without forcing a `set_up`. (Coverage round 3: the table now has a row for
+    `set_template_proj_data_info(filename)` — which passes: it sets the exam info and then resets
+    `detector_efficiency_no_scatter` through the template setter — and one for the parsed keyword `use cache`, which fails
+    like `set_cache_enabled`: the flag is written without touching the arrays.) -/
 theorem C16_invalidation_failures :
     invalidationFailures setterTable =
       [("set_exam_info", .effNoScatter),
@@ -163,6 +166,7 @@ theorem C16_invalidation_failures :
        ("set_randomly_place_scatter_points", .scatt), ("set_randomly_place_scatter_points", .actCache),
        ("set_randomly_place_scatter_points", .attCache),
        ("set_cache_enabled", .actCache), ("set_cache_enabled", .attCache),
+       ("parsed keyword `use cache`", .actCache), ("parsed keyword `use cache`", .attCache),
        ("downsample_images_to_scanner_size", .spImage), ("downsample_images_to_scanner_size", .scatt)] ∧
     setUpForcedFailures setterTable = ["set_use_cache"] :=
   ⟨invalidationFailures_eq, setUpForcedFailures_eq⟩
@@ -173,7 +177,7 @@ theorem C16_invalidation_complete_fails : ¬ C16_invalidation_complete_full := b
   revert this; decide
 
 /-- invalidation is complete for the setters of the activity image, attenuation image, scatter-point image and
-    template (and the down-sampling calls): every derived datum that depends on what they assign is cleared,
+    template — by object and by file name — (and the down-sampling calls): every derived datum that depends on what they assign is cleared,
     recomputed, or rebuilt by the `set_up` they force. Missing: the rows listed in `C16_invalidation_failures`. -/
 theorem C16_invalidation_complete_partial :
     ∀ f ∈ setterTable, f.name ∈ goodRows → (∀ d : Datum, invalidationOK f d = true) ∧ setUpForcedOK f = true := by
@@ -185,12 +189,18 @@ theorem C16_invalidation_complete_partial :
     compares with the C++), for every state and every argument: a setter leaves alone every setting its row does not
     list as modified and every derived member its row does not list as cleared or recomputed; unless it returns
     without effect, it clears what the row lists as cleared and resets `_already_set_up` if the row says so; and it
-    leaves `_already_set_up` alone if the row says it does not reset it -/
+    leaves `_already_set_up` alone if the row says it does not reset it.
+    (Coverage round 3: `Op` now includes `setRndPlace` = `set_randomly_place_scatter_points` — the flag is a modelled
+    setting, no longer `notModelled` — and `setTemplateFile` = `set_template_proj_data_info(filename)`; the operations of
+    the correspondence run `set_exam_sptr`, `set_act_file`/`set_att_file`/`set_spimg_file` and `parse_use_cache` are the
+    operations `setExam`, `setActivity`/`setDensity`/`setSpImage` and `setCacheEnabled`, see `Model.lean`.) -/
 theorem C16_table_faithful (W : World) (s : St) (op : Op) (f : SetterRow) (hf : rowOf op = some f) :
     Faithful W s op f :=
   table_faithful W s op f hf
 
 example : rowOf (.setExam 3) = some ⟨"set_exam_info", [.exam], [], [], true⟩ := by decide
+example : rowOf (.setRndPlace true) = some ⟨"set_randomly_place_scatter_points", [.rndPlace], [], [], true⟩ := by decide
+example : (rowOf (.setTemplateFile 1 (W0.tmpl 1))).map (·.modifies) = some [.tmpl, .exam] := by decide
 
 /-! ### histories -/
 
@@ -236,12 +246,18 @@ example : ∃ s, run W0 init (baseConfig ++ [.setUp, .process]) = some s ∧ s.a
 
 /-- after ANY history of setters (with a new pointer or in place with the same pointer) / `set_up` / `process_data` /
     explicit down-sampling calls (cylindrical and BlocksOnCylindrical templates), of any length, in which every operation satisfies the guard `opOk` (no `set_exam_info` while `detector_efficiency_no_scatter` is cached,
-    no threshold / zoom change while a scatter-point image derived with the old value exists, no enabling of the cache
-    on a set-up object, `downsample_scanner_bool` off): `process_data` does not touch unallocated cache storage, and
+    no threshold / zoom / random-placement change while a scatter-point image derived with the old value exists, no
+    enabling of the cache on a set-up object, `downsample_scanner_bool` off): `process_data` does not touch unallocated cache storage, and
     if it succeeds, everything it reads — scatter points, detection points, every cached or computed activity /
     attenuation integral, `max_single_scatter_cos_angle`, `detector_efficiency_no_scatter` — was computed from exactly
     the inputs a freshly configured object would use, so the outputs are equal.
-    `_partial`: the guard excludes the histories of the negative witnesses below. -/
+    `_partial`: the guard excludes the histories of the negative witnesses below.
+    Coverage round 3: the histories now range over two more operations, `set_randomly_place_scatter_points` (guarded like
+    the threshold) and `set_template_proj_data_info(filename)` (no guard needed although it calls `set_exam_info`: the
+    template setter that follows resets `detector_efficiency_no_scatter`), and through the identifications of
+    `Model.lean` over the setters by file name, `set_exam_info_sptr` and the parsed keyword `use cache`; the scatter
+    points carry the value of `randomly_place_scatter_points` they were sampled with.
+    See `C16_history_eq_fresh_partial2` for the weaker guard on enabling the cache. -/
 theorem C16_history_eq_fresh_partial (W : World) (ops : List Op) (s : St) (hrun : runGuarded W init ops = some s) :
     (process W s).2.1 ≠ .crash ∧ ∀ o, (process W s).2 = (.ok, some o) → freshOut W s = (.ok, some o) :=
   process_eq_fresh W s (inv_runGuarded W ops init s (inv_init W) hrun)
@@ -251,6 +267,47 @@ theorem C16_history_eq_fresh_from_partial (W : World) (ops : List Op) (s0 s : St
     (hrun : runGuarded W s0 ops = some s) :
     (process W s).2.1 ≠ .crash ∧ ∀ o, (process W s).2 = (.ok, some o) → freshOut W s = (.ok, some o) :=
   process_eq_fresh W s (inv_runGuarded W ops s0 s h0 hrun)
+
+/-- "It is the same with the line-integral cache enabled or disabled, and after any sequence of changes … followed by
+    set-up it equals the result of a freshly configured simulation" — for the histories around the OLDER switch
+    `set_cache_enabled(bool)` (and `set_use_cache`, and the parsed keyword): the guard of
+    `C16_history_eq_fresh_partial` on enabling the cache is weakened to "not on a set-up object UNLESS `set_up` is the very
+    next operation". So the history  compute with the cache on; `set_cache_enabled(false)`; change the activity /
+    attenuation image (new object, or in place + the same pointer); `set_up`; compute; `set_cache_enabled(true)`; `set_up`;
+    compute  is covered: `set_cache_enabled` leaves the arrays alone, the setters remove "their" array although the cache
+    is disabled, `set_up` with the cache disabled allocates nothing, and the final `set_up` allocates what is missing and
+    keeps what has the right size — which holds values of the current inputs only.
+    Every history admitted by the stronger guard is admitted by this one (`C16_guard2_weaker`). -/
+theorem C16_history_eq_fresh_partial2 (W : World) (ops : List Op) (s : St) (hrun : runGuarded2 W init ops = some s) :
+    (process W s).2.1 ≠ .crash ∧ ∀ o, (process W s).2 = (.ok, some o) → freshOut W s = (.ok, some o) :=
+  process_eq_fresh W s (inv_runGuarded2 W ops init s (Or.inl (inv_init W)) hrun)
+
+theorem C16_guard2_weaker (W : World) (ops : List Op) (s0 s : St) (h : runGuarded W s0 ops = some s) :
+    runGuarded2 W s0 ops = some s :=
+  runGuarded2_of_runGuarded W ops s0 s h
+
+/-- non-vacuity: the three-step history (activity image replaced by a new object, attenuation image changed in place,
+    with `set_up` and a computation while the cache is off) satisfies the weaker guard, not the stronger one, and ends
+    fresh; its variant without `set_up` in the middle satisfies the stronger guard as well -/
+example : (runGuarded2 W0 init histThreeStep).isSome = true ∧ (runGuarded W0 init histThreeStep).isSome = false ∧
+    freshAfter W0 histThreeStep = true ∧
+    (runGuarded W0 init histThreeStep').isSome = true ∧ freshAfter W0 histThreeStep' = true :=
+  ⟨histThreeStep_guarded2, histThreeStep_not_guarded, histThreeStep_fresh, histThreeStep'_guarded, histThreeStep'_fresh⟩
+
+/-- non-vacuity for the new operations: `set_randomly_place_scatter_points` before the scatter points exist and
+    `set_template_proj_data_info(filename)` after a computation, inside the stronger guard, fresh -/
+example : (runGuarded W0 init histFile).isSome = true ∧ freshAfter W0 histFile = true :=
+  ⟨histFile_guarded, histFile_fresh⟩
+
+/-- why `remove_cache_for_integrals_over_*` must not test `use_cache` (it does not: cached_single_scatter_integrals.cxx:33,39;
+    `initialise_cache_…` does): in the state machine with a `set_activity_image_sptr` that leaves the array alone while the
+    cache is disabled, the three-step history returns the estimate of the old activity image (the harness forces this
+    history for every seed) -/
+theorem C16_cache_removal_must_not_depend_on_use_cache : lazyRemovalStale = true := lazyRemoval_stale
+
+/-- negative witness outside the property's list of changes (sampling parameter, like threshold and zoom):
+    `set_randomly_place_scatter_points` after the scatter points were sampled does not sample them again -/
+theorem C16_history_eq_fresh_fails_rnd : staleAfter W0 histRnd = true := histRnd_stale
 
 /-- non-vacuity: a guarded history with changes of activity, attenuation, scatter-point image, template and
     energy window after a computation, at the end of which `process` succeeds (and is fresh) -/
